@@ -1,7 +1,9 @@
 // C12 E-SHIM harness: concurrent_unordered_{set,multiset,map,multimap} under the controlled scheduler.
-// usage: uo <rand seed nruns | dfs bound maxruns | replay t,t,t,...>     (scenario on stdin, see c12_common.h)
-//   kind uset|umset|umap|ummap / bc <initial bucket count> / mlf <num> <den> / hash k h k h ... / pre ins:k ... /
-//   prog ins:k find:k has:k cnt:k trav emp:k      (one line per thread)
+// usage: uo <rand seed nruns | dfs bound maxruns | replay t,t,t,... | guide segs | sweep H maxruns>   (scenario on stdin, see c12_common.h)
+//   kind uset|umset|umap|ummap / bc <initial bucket count> / mlf <num> <den> | mlfb <float bits> / hash k h k h ... /
+//   pre ins:k rsv:n reh:n mlf:bits ... / prog ins:k find:k has:k cnt:k trav emp:k rsv:n reh:n mlf:bits   (one line per thread)
+//   guide: `t*n` n picks of t, `t!` t to completion, `t@m` t until m ops are done;  sweep H: for j = 1, 2, ... hold thread H after
+//   j picks while every ordered selection of the other threads runs to completion, then H (traces printed when H had a failed CAS)
 // Per run prints: run i / node id ok uk kind / e tid kind var a b ok / o tid b|e idx / res tid idx op key values /
 //                 fin <final traversal keys> / bcfin n / mon verdict / sched tids / end
 // Built with -fno-access-control and the E-SHIM prelude.  Property monitors are independent of the Lean model.
@@ -13,6 +15,8 @@ using namespace c12;
 static Scenario g_sc;
 static FairSchedule* g_fair = nullptr;
 static long g_obs_runs = 0;
+static std::vector<long> g_ops_done;
+static int g_focus = -1;
 
 struct Hash {
     size_t operator()(uint64_t k) const { auto it = g_sc.hash.find(k); return it == g_sc.hash.end() ? (size_t)k : (size_t)it->second; }
@@ -42,14 +46,24 @@ static uint64_t mon_regular(uint64_t h) { return mon_rev(h) | 1; }
 struct OpRes { std::string name; uint64_t key; std::vector<uint64_t> vals; };
 
 template <class C>
-static bool run_once(verif::Schedule& sch, int run_idx, bool print) {
+static bool run_once(verif::Schedule& sch, int run_idx, int print) {
     using T = Tr<C>;
     using node_ptr = typename C::node_ptr;
     using value_node_ptr = typename C::value_node_ptr;
     arena().reset();
     C* cp = new (arena().alloc(sizeof(C), 64, 2)) C((size_t)g_sc.bc);     // never destroyed: a corrupted list must not hang us
     C& c = *cp;
-    c.max_load_factor(float(g_sc.mlf_num) / float(g_sc.mlf_den));
+    if (g_sc.has_mlf_bits) { float f; memcpy(&f, &g_sc.mlf_bits, 4); c.max_load_factor(f); }
+    else c.max_load_factor(float(g_sc.mlf_num) / float(g_sc.mlf_den));
+    // reserve / rehash / max_load_factor(f): returns 1, or 0 when the load factor was rejected (exception)
+    auto size_op = [&](const OpSpec& o) -> uint64_t {
+        if (o.name == "rsv") { c.reserve((size_t)o.key); return 1; }
+        if (o.name == "reh") { c.rehash((size_t)o.key); return 1; }
+        uint32_t b = (uint32_t)o.key; float f; memcpy(&f, &b, 4);
+        try { c.max_load_factor(f); } catch (...) { return 0; }
+        return 1;
+    };
+    auto is_size_op = [](const OpSpec& o) { return o.name == "rsv" || o.name == "reh" || o.name == "mlf"; };
     size_t T_n = g_sc.progs.size();
     size_t total_ins = g_sc.pre.size();
     for (auto& p : g_sc.progs) for (auto& o : p) if (o.name == "ins" || o.name == "emp") total_ins++;
@@ -73,12 +87,16 @@ static bool run_once(verif::Schedule& sch, int run_idx, bool print) {
     std::set<const void*> elems_all;            // elements returned by any successful insert
     guarded([&] {
         for (auto& o : g_sc.pre) {
+            if (is_size_op(o)) { size_op(o); continue; }
+            if (o.name == "find" || o.name == "has") { (void)c.contains(o.key); continue; }      // initialises the key's bucket
             auto r = c.insert(T::val(o.key, 900000 + pre_cnt.size()));
             if (r.second) { pre_cnt[o.key]++; elems_done.insert(&*r.first); elems_all.insert(&*r.first); }
             else if (T::multi) fail("pre-insert into a multi container failed");
         }
     }, "sequential pre-insert phase");
     std::vector<std::vector<OpRes>> res(T_n);
+    std::vector<size_t> bc_hist{c.my_bucket_count.a.load()};          // every bucket count the table has had
+    g_ops_done.assign(T_n, 0);
 
     auto traverse = [&](std::vector<uint64_t>& keys, std::vector<const void*>& addrs, const char* who) {
         size_t n = 0; uint64_t last_ok = 0;
@@ -136,6 +154,8 @@ static bool run_once(verif::Schedule& sch, int run_idx, bool print) {
                 if ((long)n > hi + inflight) fail("count(" + std::to_string(o.key) + ") = " + std::to_string(n) + " above the number of started inserts " + std::to_string(hi) + " (+" + std::to_string(inflight) + " in flight)");
                 else if ((long)n > hi) observations.push_back("count(" + std::to_string(o.key) + ") = " + std::to_string(n) + " although only " + std::to_string(hi) + " such elements were ever inserted (concurrent inserts of other keys inside equal_range)");
                 r.vals.push_back(n);
+            } else if (is_size_op(o)) {
+                r.vals.push_back(size_op(o));
             } else if (o.name == "trav") {
                 std::set<const void*> before = elems_done;
                 std::vector<const void*> addrs;
@@ -144,6 +164,7 @@ static bool run_once(verif::Schedule& sch, int run_idx, bool print) {
             }
             verif::note("e", i);
             res[t].push_back(r);
+            g_ops_done[t]++;
         }
     });
     verif::Result rr = verif::run(bodies, sch, 100000);
@@ -153,6 +174,41 @@ static bool run_once(verif::Schedule& sch, int run_idx, bool print) {
     // ---- quiescent monitors (skipped after a deadlock: threads are stuck inside the container) ----
     std::vector<uint64_t> fin; std::vector<const void*> fin_addrs;
     size_t bcfin = c.my_bucket_count.a.load();
+    bool focus_cas_failed = false;
+    for (auto& e : rr.log) {
+        if (e.kind == verif::K_CAS && e.ok && e.addr == (const void*)&c.my_bucket_count) bc_hist.push_back((size_t)e.b);
+        if (e.kind == verif::K_CAS && !e.ok && e.tid == g_focus) focus_cas_failed = true;
+    }
+    bc_hist.push_back(bcfin);
+    for (size_t v : bc_hist) if (v == 0 || (v & (v - 1))) { fail("bucket count " + std::to_string(v) + " is not a power of two"); break; }
+    // white-box walk of the raw list (dummy nodes included): sorted by order key, dummy keys unique, it terminates
+    std::set<const void*> raw_nodes;
+    if (!rr.deadlock) {
+        size_t n = 0; node_ptr prevn = &c.my_head;
+        raw_nodes.insert(prevn);
+        for (node_ptr x = c.my_head.my_next.a.load(); x; x = x->my_next.a.load()) {
+            if (++n > walk_bound) { fail("raw list walk does not terminate (cycle)"); break; }
+            if (!raw_nodes.insert(x).second) { fail("raw list walk meets a node twice (cycle)"); break; }
+            if (x->order_key() < prevn->order_key())
+                fail(std::string("list not sorted: ") + (x->is_dummy() ? "dummy" : "regular") + " node with order key " + std::to_string(x->order_key()) +
+                     " is linked behind " + (prevn->is_dummy() ? "dummy" : "regular") + " node with order key " + std::to_string(prevn->order_key()));
+            else if (x->is_dummy() && x->order_key() == prevn->order_key()) fail("two dummy nodes with order key " + std::to_string(x->order_key()));
+            prevn = x;
+        }
+        // every initialised bucket slot points at a dummy node of the list that carries the bucket's dummy key
+        auto* tab0 = c.my_segments.my_segment_table.a.load();
+        for (size_t sg = 0; sg < 40 && err.empty(); ++sg) {
+            auto* segp = tab0[sg].a.load();
+            if (!segp) continue;
+            size_t base = c.my_segments.segment_base(sg), cnt = c.my_segments.segment_size(sg);
+            for (size_t b = base; b < base + cnt; ++b) {
+                node_ptr d = segp[b].a.load();
+                if (!d) continue;
+                if (!raw_nodes.count(d)) { fail("bucket " + std::to_string(b) + " points at a node that is not in the list"); break; }
+                if (d->order_key() != mon_dummy(b) || (b != 0 && !d->is_dummy())) { fail("bucket " + std::to_string(b) + " entry has the wrong order key"); break; }
+            }
+        }
+    }
     if (!rr.deadlock) guarded([&] {
         traverse(fin, fin_addrs, "final traversal");
         check_traversal(fin, fin_addrs, elems_all, "final traversal");
@@ -171,7 +227,10 @@ static bool run_once(verif::Schedule& sch, int run_idx, bool print) {
             uint64_t h = Hash()(fin[i]);
             if (c.find(fin[i]) == c.end()) fail("element " + std::to_string(fin[i]) + " not found at quiescence");
             if (T::multi && c.count(fin[i]) != (size_t)have[fin[i]]) fail("count(" + std::to_string(fin[i]) + ") wrong at quiescence");
-            for (size_t sz = 1; sz <= bcfin; sz *= 2) {
+            std::set<size_t> sizes(bc_hist.begin(), bc_hist.end());
+            for (size_t sz = 1; sz <= bcfin && sz; sz *= 2) sizes.insert(sz);
+            for (size_t sz : sizes) {
+                if (!sz) continue;
                 size_t b = h % sz;
                 auto seg = c.my_segments.segment_index_of(b);
                 auto* segp = c.my_segments.my_segment_table.a.load()[seg].a.load();
@@ -190,7 +249,7 @@ static bool run_once(verif::Schedule& sch, int run_idx, bool print) {
         }, "quiescent lookups/traversal");
     if (!observations.empty()) g_obs_runs++;
     bool ok = err.empty() && !rr.deadlock;
-    if (print || !ok) {
+    if (print == 1 || !ok || (print == 2 && focus_cas_failed)) {
         // ---- canonical names ----
         std::map<const void*, std::string> var; std::map<uint64_t, std::string> val;
         std::vector<std::string> node_lines;
@@ -250,15 +309,43 @@ template <class C> static int drive(int argc, char** argv) {
     long runs = 0, bad = 0;
     if (mode == "rand") {
         unsigned long long seed = strtoull(argv[2], 0, 10);
-        for (long i = 0; i < maxruns; ++i) { verif::RandomSchedule s(seed * 7919 + i, 32 + (int)(i % 4) * 56); if (!run_once<C>(s, (int)i, true)) bad++; runs++; }
+        for (long i = 0; i < maxruns; ++i) { verif::RandomSchedule s(seed * 7919 + i, 32 + (int)(i % 4) * 56); if (!run_once<C>(s, (int)i, 1)) bad++; runs++; }
     } else if (mode == "dfs") {
         verif::DfsSchedule d(atoi(argv[2]));
         FairSchedule f(d);
-        do { d.pos = 0; d.preempts = 0; f.reset(); g_fair = &f; if (!run_once<C>(f, (int)runs, false)) { bad++; break; } runs++; } while (runs < maxruns && d.next());
+        do { d.pos = 0; d.preempts = 0; f.reset(); g_fair = &f; if (!run_once<C>(f, (int)runs, 0)) { bad++; break; } runs++; } while (runs < maxruns && d.next());
+    } else if (mode == "guide") {
+        GuideSchedule g; g.segs = GuideSchedule::parse(argv[2]); g.ops_done = &g_ops_done;
+        FairSchedule f(g); g_fair = &f;
+        if (!run_once<C>(f, 0, 1)) bad++; runs++;
+    } else if (mode == "sweep") {
+        int H = atoi(argv[2]); g_focus = H;
+        std::vector<int> others; for (size_t t = 0; t < g_sc.progs.size(); ++t) if ((int)t != H) others.push_back((int)t);
+        // every ordered selection of 1..n of the other threads
+        std::vector<std::vector<int>> orders;
+        std::function<void(std::vector<int>&)> gen = [&](std::vector<int>& cur) {
+            if (!cur.empty()) orders.push_back(cur);
+            for (int t : others) { bool used = false; for (int u : cur) if (u == t) used = true; if (used) continue; cur.push_back(t); gen(cur); cur.pop_back(); }
+        };
+        std::vector<int> cur0; gen(cur0);
+        bool stop = false;
+        for (long j = 1; j < 2000 && !stop && !bad; ++j) {
+            for (auto& ord : orders) {
+                if (runs >= maxruns) { stop = true; break; }
+                GuideSchedule g; g.ops_done = &g_ops_done;
+                g.segs.push_back({H, '*', j});
+                for (int t : ord) g.segs.push_back({t, '!', 0});
+                g.segs.push_back({H, '!', 0});
+                FairSchedule f(g); g_fair = &f;
+                if (!run_once<C>(f, (int)runs, 2)) { bad++; break; }
+                runs++;
+                if (g.first_short) stop = true;       // H finished within j picks: every hold point has been visited
+            }
+        }
     } else if (mode == "replay") {
         verif::ReplaySchedule s; s.tids = strcmp(argv[2], "-") ? parse_sched(argv[2]) : g_sc.sched;
         FairSchedule f(s); g_fair = &f;
-        if (!run_once<C>(f, 0, true)) bad++; runs++;
+        if (!run_once<C>(f, 0, 1)) bad++; runs++;
     }
     printf("summary runs=%ld bad=%ld obs=%ld\n", runs, bad, g_obs_runs);
     return bad ? 1 : 0;
